@@ -69,8 +69,29 @@ def check_json(acc, S, text):
     acc.count(acc.clauses, f"C16.json:{'T' if ok else 'F'}")
 
 
-def check_csv(acc, S, text):
-    header, rows = rd.read_csv_text(text)
+def check_df(acc, S, frame):
+    """the pandas data frame itself, read through its public accessors"""
+    ok = True
+    rows = frame.to_dict(orient="records")
+    names = [r.get("Task name") for r in rows]
+    if names != list(S["tasks"]):
+        ok = False
+        acc.violation("C16.df.rows", "wrong-value", {}, {"got": names, "want": list(S["tasks"])})
+    for r in rows:
+        t = S["tasks"].get(r.get("Task name"))
+        if t is None:
+            continue
+        got = {"start": int(r["Start"]), "end": int(r["End"]), "duration": int(r["Duration"]),
+               "scheduled": bool(r["Scheduled"]), "assigned": list(r["Allocated Resources"])}
+        for k, v in got.items():
+            if v != t[k]:
+                ok = False
+                acc.violation("C16.df.field", "wrong-value", {}, {"task": r["Task name"], "field": k, "got": v, "want": t[k]})
+    acc.count(acc.clauses, f"C16.df:{'T' if ok else 'F'}")
+
+
+def check_csv(acc, S, text, sep=","):
+    header, rows = rd.read_csv_text(text, sep)
     ok = True
 
     def bad(what, **kw):
@@ -90,7 +111,7 @@ def check_csv(acc, S, text):
         for k, v in got.items():
             if v != t[k]:
                 bad("field", task=r["Task name"], field=k, got=v, want=t[k])
-    acc.count(acc.clauses, f"C16.csv:{'T' if ok else 'F'}")
+    acc.count(acc.clauses, f"C16.csv{'' if sep == ',' else '.sep'}:{'T' if ok else 'F'}")
 
 
 def expected_rows(items, first_header):
@@ -196,7 +217,7 @@ def export_all(acc, spec, res, tmpdir, tag):
         except Exception as exc:  # pylint: disable=broad-except
             acc.violation(f"C16.{fmt}.exception", "exception", dict(feats, exc=type(exc).__name__),
                           {"msg": str(exc)[:300]})
-    # file variants
+    # file variants and every documented argument of the exporters (separator, compact, colors)
     try:
         p = os.path.join(tmpdir, f"{tag}.json")
         sol.to_json_file(p)
@@ -206,6 +227,28 @@ def export_all(acc, spec, res, tmpdir, tag):
         sol.to_csv(p)
         with open(p) as f:
             check_csv(acc, S, f.read())
+        with warnings.catch_warnings():
+            warnings.simplefilter("ignore")
+            check_df(acc, S, sol.to_df())
+            for si, sep in enumerate((";", "\t", "|")):
+                check_csv(acc, S, sol.to_csv(separator=sep), sep)
+                p = os.path.join(tmpdir, f"{tag}.sep{si}.csv")
+                sol.to_csv(p, sep)
+                with open(p, newline="") as f:
+                    check_csv(acc, S, f.read(), sep)
+                p = os.path.join(tmpdir, f"{tag}.kw{si}.csv")
+                sol.to_csv(csv_filename=p, separator=sep)
+                with open(p, newline="") as f:
+                    check_csv(acc, S, f.read(), sep)
+            check_json(acc, S, sol.to_json(compact=True))
+            p = os.path.join(tmpdir, f"{tag}.compact.json")
+            sol.to_json_file(p, compact=True)
+            with open(p) as f:
+                check_json(acc, S, f.read())
+            p = os.path.join(tmpdir, f"{tag}.colors.xlsx")
+            sol.to_excel_file(p, colors=True)
+            check_xlsx(acc, S, p)
+        acc.executions += 12
     except Exception as exc:  # pylint: disable=broad-except
         acc.violation("C16.file.exception", "exception", dict(feats, exc=type(exc).__name__), {"msg": str(exc)[:300]})
 
